@@ -134,7 +134,7 @@ Proof.
            match goal with |- context [macc A ?ii ?mm] => assert (macc A ii mm = false) as -> by (unfold macc; simpl; apply Sp; lia) end.
            rewrite app_nil_r. reflexivity.
       * intros i _. apply W. rewrite Ec. reflexivity.
-      * intros i Hi. destruct (c_after A (as_level A t k) 0); discriminate.
+      * intros i Hi. destruct (c_after A (as_level A t k) 0) eqn:Ea; try discriminate; contradiction.
     + (* the sentinel *)
       constructor; simpl.
       * rewrite F. reflexivity.
@@ -177,7 +177,7 @@ Proof.
       assert (Hl : lines_of (upd (a_out s) i (a_out s i ++ [(ct, ck, 2%nat)]) j) = lines_of (a_out s j)).
       { unfold upd. destruct (Nat.eqb_spec j i); subst; [|reflexivity].
         rewrite lines_of_app. unfold lines_of at 2. simpl. apply app_nil_r. }
-      rewrite Hl, O.
+      etransitivity; [exact Hl|]. rewrite O.
       destruct (c_after A (as_level A ct ck) (S i)) eqn:Ea; try contradiction; simpl.
       * destruct Sp as (Hle & _ & Hgap).
         destruct (Nat.leb_spec j i), (Nat.ltb_spec j i0); try reflexivity; try lia.
@@ -191,24 +191,20 @@ Proof.
     + intros j Hj. unfold upd. destruct (Nat.eqb_spec j i); subst.
       * rewrite Hout0. simpl. rewrite <- app_assoc. simpl. apply whole_snoc. exact Hw0.
       * apply W. rewrite Ec. simpl. apply Nat.eqb_neq. congruence.
-    + intros j Hj. destruct (c_after A (as_level A ct ck) (S i)); discriminate.
+    + intros j Hj. destruct (c_after A (as_level A ct ck) (S i)) eqn:Ea; try discriminate; contradiction.
   - (* CFreePay *)
-    inv_some Hs. apply (ainv_frame A (a_set_live s (pred (a_live s)))).
-    + apply (ainv_idle A (a_set_live s (pred (a_live s))) CFreeMsg); auto.
-      * apply (ainv_frame A s); auto.
-      * simpl. rewrite Ec. reflexivity.
-    + reflexivity. + reflexivity. + reflexivity. + reflexivity. + reflexivity. + reflexivity.
+    inv_some Hs. apply (ainv_idle A (a_set_live s (pred (a_live s))) CFreeMsg); auto.
+    + apply (ainv_frame A s); auto.
+    + simpl. rewrite Ec. reflexivity.
   - (* CFreeMsg *)
-    inv_some Hs. apply (ainv_frame A (a_set_live s (pred (a_live s)))).
-    + apply (ainv_idle A (a_set_live s (pred (a_live s))) CCheck); auto.
-      * apply (ainv_frame A s); auto.
-      * simpl. rewrite Ec. reflexivity.
-    + reflexivity. + reflexivity. + reflexivity. + reflexivity. + reflexivity. + reflexivity.
+    inv_some Hs. apply (ainv_idle A (a_set_live s (pred (a_live s))) CCheck); auto.
+    + apply (ainv_frame A s); auto.
+    + simpl. rewrite Ec. reflexivity.
   - (* CExitNote *)
-    inv_some Hs. apply (ainv_frame A (a_set_cons s CWakeJoin)); try reflexivity.
+    inv_some Hs. apply (ainv_frame A (a_set_cons s CWakeJoin)); try (simpl; rewrite ?Ecur; reflexivity).
     apply ainv_idle; auto. rewrite Ec. reflexivity.
   - (* CWakeJoin *)
-    inv_some Hs. apply (ainv_frame A (a_set_cons s CFin)); try reflexivity.
+    inv_some Hs. apply (ainv_frame A (a_set_cons s CFin)); try (simpl; rewrite ?Ecur; reflexivity).
     apply ainv_idle; auto. rewrite Ec. reflexivity.
   - (* CFin *)
     inv_some Hs. apply ainv_idle; auto. rewrite Ec. reflexivity.
@@ -265,3 +261,107 @@ Qed.
 
 Theorem async_invariant fixed A sched : AInv A (exec asys (astep fixed A) (ainit A) sched).
 Proof. apply inv_exec; [|apply ainit_inv]. intros; eapply astep_ainv; eauto. Qed.
+
+(* ------------------------------------------------------------------ *)
+(* destroy returns only after the writer thread has left through the sentinel *)
+
+Definition cexited (c : cpc) : bool := match c with CWakeJoin | CFin | CEnd => true | _ => false end.
+Definition post_join (p : ppc) : bool :=
+  match p with PChanFree1 | PChanFree2 | PDestroyed => true | _ => false end.
+
+Record JInv (s : asys) : Prop := {
+  ji_word : a_joinword s = true -> cexited (a_cons s) = true;
+  ji_post : forall t, post_join (p_pc (a_thr s t)) = true -> a_joinword s = true;
+  ji_destroyed : a_destroyed s = true -> a_joinword s = true;
+}.
+
+Lemma ainit_jinv A : JInv (ainit A).
+Proof.
+  constructor; simpl; try discriminate. intros t. destruct (Nat.eqb (as_msgs A) 0); discriminate.
+Qed.
+
+Lemma wake_joiners_post thr u : post_join (p_pc (wake_joiners thr u)) = post_join (p_pc (thr u)).
+Proof. unfold wake_joiners. destruct (p_pc (thr u)) eqn:E; simpl; rewrite ?E; reflexivity. Qed.
+
+Ltac jinv_thr J2 t :=
+  let u := fresh "u" in let Hu := fresh "Hu" in
+  intros u Hu; unfold upd in Hu; destruct (Nat.eqb_spec u t); subst; simpl in Hu;
+  [try discriminate | apply (J2 u); exact Hu].
+
+Lemma astep_jinv fixed A s t ch s' l : JInv s -> astep fixed A s t ch = Some (s', l) -> JInv s'.
+Proof.
+  intros [J1 J2 J3] Hs. unfold astep in Hs. destruct t as [|t].
+  - unfold cstep in Hs. destruct (a_cur s) as [ct ck].
+    destruct (a_cons s) eqn:Ec; try discriminate.
+    + inv_some Hs; constructor; simpl; auto; try (intros H; specialize (J1 H); discriminate).
+    + destruct (a_queue s); inv_some Hs; constructor; simpl; auto; try (intros H; specialize (J1 H); discriminate).
+    + destruct (a_queue s) as [|[tt kk|] q]; try discriminate; inv_some Hs; constructor; simpl; auto;
+        try (intros H; specialize (J1 H); discriminate).
+    + inv_some Hs; constructor; simpl; auto; try (intros H; specialize (J1 H); discriminate).
+    + inv_some Hs; constructor; simpl; auto; try (intros H; specialize (J1 H); discriminate).
+    + inv_some Hs; constructor; simpl; auto; try (intros H; specialize (J1 H); discriminate).
+    + inv_some Hs; constructor; simpl; auto; try (intros H; specialize (J1 H); discriminate).
+    + inv_some Hs; constructor; simpl; auto; try (intros H; specialize (J1 H); discriminate).
+    + inv_some Hs. constructor; simpl; auto.
+    + inv_some Hs. constructor; simpl; auto.
+      intros u Hu. rewrite wake_joiners_post in Hu. apply (J2 u). exact Hu.
+    + inv_some Hs. constructor; simpl; auto.
+  - destruct (Nat.ltb (as_n A) (S t)); [discriminate|]. unfold pstep in Hs.
+    set (T := S t) in *.
+    destruct (p_pc (a_thr s T)) eqn:Epc; try discriminate.
+    + destruct (as_lowest A >? _); inv_some Hs; constructor; simpl; auto; jinv_thr J2 T.
+      unfold p_next in Hu. destruct (Nat.ltb _ _); discriminate.
+    + inv_some Hs; constructor; simpl; auto; jinv_thr J2 T.
+    + inv_some Hs; constructor; simpl; auto; jinv_thr J2 T.
+    + destruct (a_wlock s); inv_some Hs; constructor; simpl; auto; jinv_thr J2 T.
+    + inv_some Hs; constructor; simpl; auto; jinv_thr J2 T. destruct (Nat.leb _ _); discriminate.
+    + inv_some Hs; constructor; simpl; auto; jinv_thr J2 T.
+    + destruct full; [destruct fixed|]; inv_some Hs; constructor; simpl; auto; jinv_thr J2 T;
+        unfold p_next in Hu; destruct (Nat.ltb _ _); discriminate.
+    + destruct (a_cons s) eqn:Ec; inv_some Hs; constructor; simpl; auto;
+        try (intros H; specialize (J1 H); discriminate);
+        try (intros _; rewrite Ec; reflexivity);
+        try (jinv_thr J2 T; unfold p_next in Hu; destruct (Nat.ltb _ _); discriminate).
+    + inv_some Hs; constructor; simpl; auto; jinv_thr J2 T.
+    + inv_some Hs; constructor; simpl; auto; jinv_thr J2 T.
+      unfold p_next in Hu. destruct (Nat.ltb _ _); discriminate.
+    + inv_some Hs; constructor; simpl; auto; jinv_thr J2 T. destruct (Nat.eqb _ 0); discriminate.
+    + inv_some Hs; constructor; simpl; auto; jinv_thr J2 T.
+    + destruct (a_wlock s); inv_some Hs; constructor; simpl; auto; jinv_thr J2 T.
+    + inv_some Hs; constructor; simpl; auto; jinv_thr J2 T. destruct (Nat.leb _ _); discriminate.
+    + inv_some Hs; constructor; simpl; auto; jinv_thr J2 T.
+    + inv_some Hs; constructor; simpl; auto; jinv_thr J2 T. destruct full; [destruct fixed|]; discriminate.
+    + destruct (a_cons s) eqn:Ec; inv_some Hs; constructor; simpl; auto;
+        try (intros H; specialize (J1 H); discriminate);
+        try (intros _; rewrite Ec; reflexivity); try (jinv_thr J2 T).
+    + inv_some Hs; constructor; simpl; auto; jinv_thr J2 T.
+    + inv_some Hs; constructor; simpl; auto; jinv_thr J2 T.
+      destruct (a_joinword s) eqn:Ej; [reflexivity|discriminate].
+    + destruct (a_joinword s) eqn:Ej; inv_some Hs; constructor; simpl; auto;
+        intros u Hu; unfold upd in Hu; destruct (Nat.eqb_spec u T); subst; simpl in Hu;
+        try discriminate; try reflexivity; try (exact (J2 u Hu)).
+    + inv_some Hs; constructor; simpl; auto; jinv_thr J2 T. apply (J2 T). rewrite Epc. reflexivity.
+    + inv_some Hs; constructor; simpl; auto; jinv_thr J2 T. apply (J2 T). rewrite Epc. reflexivity.
+    + inv_some Hs; constructor; simpl; auto; [jinv_thr J2 T|]. intros _. apply (J2 T). rewrite Epc. reflexivity.
+    + inv_some Hs; constructor; simpl; auto; jinv_thr J2 T.
+Qed.
+
+Theorem async_join_invariant fixed A sched : JInv (exec asys (astep fixed A) (ainit A) sched).
+Proof. apply inv_exec; [|apply ainit_jinv]. intros; eapply astep_jinv; eauto. Qed.
+
+(* once destroy has returned: the writer thread has exited, no line is in progress, and every
+   message it took from the queue is on every accepting handler's stream, whole, in queue order *)
+Lemma destroyed_all_written fixed A sched :
+  let s := exec asys (astep fixed A) (ainit A) sched in
+  a_destroyed s = true ->
+  cexited (a_cons s) = true /\
+  a_accepted s = a_consumed s ++ msgs_of (a_queue s) /\
+  forall i, whole (a_out s i) /\ lines_of (a_out s i) = filter (macc A i) (a_consumed s).
+Proof.
+  intros s Hd. destruct (async_join_invariant fixed A sched) as [J1 J2 J3].
+  destruct (async_invariant fixed A sched) as [F C O W M]. fold s in J1, J2, J3, F, C, O, W, M.
+  pose proof (J1 (J3 Hd)) as Hex. split; [exact Hex|]. split; [exact F|].
+  intros i. split.
+  - apply W. destruct (a_cons s); try discriminate; reflexivity.
+  - rewrite O. unfold done_part. destruct (a_cons s); try discriminate; reflexivity.
+Qed.
